@@ -393,6 +393,7 @@ int explicit_lookup(Task* t, uint64_t off) {
     int c = cmp_pos(h.op, h.off, t->cur_op, off);
     if (c < 0) { g.exp_head++; continue; }  // a point we have passed (minimised away)
     if (c > 0) return -1;
+    if (h.forced == 6) return -1;  // taken by after_acquire(), once the lock is held
     g.exp_head++;
     if (h.to >= 0 && h.to < g.ntasks && h.to != t->id && g.tasks[h.to].state == T_RUN) return h.to;
     return -1;
@@ -584,9 +585,25 @@ void yield_point(Task* t, int kind, unsigned size, uint32_t pc) {
 // lock-order search: right after a task has acquired a lock, let every other task run up to its
 // own next acquisition; two tasks taking two locks in opposite orders then meet with certainty
 void after_acquire(Task* t) {
-  if (g.cfg.strategy != S_LOCKSTEP || g.fair || g.ntasks < 2) return;
+  if (g.fair || g.ntasks < 2) return;
+  if (g.cfg.strategy == S_EXPLICIT) {
+    // replay of a recorded post-acquisition hand-off (cause 6): same position as the lock event's
+    // yield point, but taken after the lock was obtained
+    while (g.exp_head < g.cfg.n_explicit) {
+      const Switch& h = g.cfg.explicit_sw[g.exp_head];
+      if (h.task != t->id || h.forced != 6) return;
+      int c = cmp_pos(h.op, h.off, t->cur_op, t->local_events - t->op_start);
+      if (c > 0) return;
+      g.exp_head++;
+      if (c < 0) continue;
+      if (h.to >= 0 && h.to < g.ntasks && h.to != t->id && g.tasks[h.to].state == T_RUN) do_switch(t, h.to, 6);
+      return;
+    }
+    return;
+  }
+  if (g.cfg.strategy != S_LOCKSTEP) return;
   int to = next_rr(t->id);
-  if (to >= 0) do_switch(t, to, 0);
+  if (to >= 0) do_switch(t, to, 6);
 }
 
 void block_on(Task* t, uintptr_t addr) {
@@ -1625,8 +1642,10 @@ int sched_yield(void) {
   // a spinning task must let others run: treat as an immediate hand-off to the next runnable task
   t->in_rt = 1;
   yield_point(t, EV_MUTEX, 3, PC());
-  int to = next_rr(t->id);
-  if (to >= 0) do_switch(t, to, 5);
+  if (g.cfg.strategy != S_EXPLICIT) {  // in a replay the recorded hand-off is taken at the yield point
+    int to = next_rr(t->id);
+    if (to >= 0) do_switch(t, to, 5);
+  }
   t->in_rt = 0;
   return 0;
 }
